@@ -132,7 +132,28 @@ func (g *Gen) Step(depth int) Step {
 // Pred draws from the predicate classes of DESIGN §7 C02.
 func (g *Gen) Pred(depth int) Expr {
 	r := g.R
-	switch r.Intn(18) {
+	switch r.Intn(20) {
+	case 18, 19:
+		// position()/last() buried inside function arguments and boolean connectives
+		if g.has("position") && g.has("not") {
+			k := N(float64(r.Range(1, 3)))
+			var inner Expr = Binary{rng.Pick(r, []string{"=", "!=", "<", ">"}), Fn("position"), k}
+			if g.has("last") && r.P(40) {
+				inner = Binary{rng.Pick(r, []string{"=", "!="}), Fn("position"), Fn("last")}
+			}
+			wrapped := Fn("not", inner)
+			if g.has("boolean") && r.P(30) {
+				wrapped = Fn("boolean", inner)
+			}
+			if g.has("number") && g.has("last") && r.P(20) {
+				return Binary{"=", Fn("number", Fn("last")), Fn("position")}
+			}
+			if depth <= g.C.MaxDepth && r.P(60) {
+				return Binary{rng.Pick(r, []string{"and", "or"}), g.relPathN(depth+1, 1), wrapped}
+			}
+			return wrapped
+		}
+		return N(2)
 	case 16, 17:
 		// number-valued predicates that depend on the context node: [n] must still be [position() = n] per node
 		self := Rel(Step{Axis: "self", Test: NodeT(), Abbrev: true})
